@@ -14,6 +14,9 @@
 //!   line <tlk> <fam> <nl> <lines> <TAB> src=<hex> <TAB> out=<…> <TAB> eq=<…>
 //!       line statements / line comments; `eq` is the output of the equivalent template in which
 //!       every statement line is replaced by the bare block tag and every comment line removed.
+//!   rand <tlk> <fam> <srchex>   <TAB> src=<hex> <TAB> tok=<items>
+//!       random delimiter sets (prefix-sharing, nested, contained, multi-byte) x random sources made of
+//!       delimiter fragments: the real lexer against the model of the automaton path.
 //!   cfg <fam>                   <TAB> build=<ok|err:Kind> [<TAB> probe=<…>]
 //!       delimiter configurations (valid and invalid) through SyntaxConfigBuilder::build.
 //!
@@ -972,6 +975,78 @@ fn gen_line(out: &mut impl Write, tier: &str, rng: &mut Rng) {
     }
 }
 
+// -- random delimiter sets --------------------------------------------------------------------
+
+/// `rand <tlk> <fam> <hex source>`: a random delimiter set (prefix-sharing, nested-prefix,
+/// contained, multi-byte start delimiters, optional line prefixes) and a random source made of
+/// delimiter fragments; the tokens of the real lexer are compared with the model (which runs the
+/// modelled automaton path).  Sets that `build` rejects are reported as `badcfg`.
+fn run_rand(tlk: &str, fam: &str, srchex: &str) -> String {
+    let f = Fam::dec(fam);
+    let src = unhexs(srchex);
+    let tok = lex(tlk, &f, &src);
+    format!("rand {} {} {}\tsrc={}\ttok={}", tlk, fam, srchex, srchex, tok)
+}
+
+fn gen_rand(out: &mut impl Write, tier: &str, rng: &mut Rng) {
+    let n_sets = if tier == "thorough" { 4000 } else { 500 };
+    let per_set = if tier == "thorough" { 40 } else { 30 };
+    let atoms = ["<", "%", "{", "#", "\u{ab}", "\u{e9}", "=", "[", "(", "@", "<<", "{{", "{%"];
+    let ends = ["%>", "}", ">>", "\u{bb}", "]]", "%]", "}}", "%}", ")", "@", "#}"];
+    for i in 0..n_sets {
+        // three start delimiters that like to share prefixes: grow from a common stem
+        let stem_len = rng.below(3) as usize;
+        let mut stem = String::new();
+        for _ in 0..stem_len {
+            stem.push_str(pk(rng, &atoms));
+        }
+        let mut mk_start = |rng: &mut Rng| {
+            let mut s = if rng.chance(2, 3) { stem.clone() } else { String::new() };
+            let extra = if s.is_empty() { 1 + rng.below(3) } else { rng.below(3) };
+            for _ in 0..extra {
+                s.push_str(pk(rng, &atoms));
+            }
+            s
+        };
+        let (bs, vs, cs) = (mk_start(rng), mk_start(rng), mk_start(rng));
+        let (be, ve, ce) = (pk(rng, &ends).to_string(), pk(rng, &ends).to_string(), pk(rng, &ends).to_string());
+        let ls = if rng.chance(1, 3) { mk_start(rng) } else { String::new() };
+        let lc = if rng.chance(1, 3) { mk_start(rng) } else { String::new() };
+        let f = Fam { name: format!("rand{}", i), d: [bs, be, vs, ve, cs, ce, ls, lc] };
+        let fenc = f.enc();
+        if f.build().is_err() {
+            emit(out, run_cfg(&fenc));
+            continue;
+        }
+        let mut pieces: Vec<String> = vec![
+            " ".into(), "\n".into(), "x".into(), " v ".into(), " if t ".into(), " endif ".into(), " c ".into(), "-".into(),
+            "+".into(), "\r\n".into(), "  ".into(), " raw ".into(), " endraw ".into(), "'".into(), "1".into(),
+        ];
+        for k in 0..8 {
+            if !f.d[k].is_empty() {
+                pieces.push(f.d[k].clone());
+                // and a proper prefix of it
+                let cut: String = f.d[k].chars().take(f.d[k].chars().count() - 1).collect();
+                if !cut.is_empty() {
+                    pieces.push(cut);
+                }
+            }
+        }
+        for a in atoms {
+            pieces.push(a.to_string());
+        }
+        for _ in 0..per_set {
+            let n = 1 + rng.below(10);
+            let mut src = String::new();
+            for _ in 0..n {
+                let pc: &String = rng.pick(&pieces); src.push_str(pc);
+            }
+            let tlk = *rng.pick(&TLK);
+            emit(out, run_rand(tlk, &fenc, &hexs(&src)));
+        }
+    }
+}
+
 // -- configurations ---------------------------------------------------------------------------
 
 fn gen_cfg(out: &mut impl Write) {
@@ -1031,6 +1106,9 @@ fn main() {
             if which == "all" || which == "line" {
                 gen_line(&mut out, &tier, &mut Rng::new(seed ^ 0x30));
             }
+            if which == "all" || which == "rand" {
+                gen_rand(&mut out, &tier, &mut Rng::new(seed ^ 0x40));
+            }
             if which == "all" || which == "cfg" {
                 gen_cfg(&mut out);
             }
@@ -1042,6 +1120,7 @@ fn main() {
                 "prog" => run_prog(a[1], a[2], a[3]),
                 "line" => run_line(a[1], a[2], a[3], a[4]),
                 "cfg" => run_cfg(a[1]),
+                "rand" => run_rand(a[1], a[2], a[3]),
                 _ => panic!("bad stream"),
             };
             emit(&mut out, line);
